@@ -1004,6 +1004,19 @@ pub fn run_c18(ctx: &mut Ctx) {
         for _ in 0..3 {
             c18_doc(rep, &doc, &mut stats, 1);
         }
+        // targets and keys with characters the format itself cannot carry (the writer does not
+        // validate them; whatever it writes for them, faults are reported all the same)
+        for target in ["/a>b", ">", "a>>b>", "<>;,\"\\", "\n\r>", "x\u{e9}>\u{1f600}>"] {
+            let doc = vec![
+                Link { target: target.into(), attrs: vec![("ct".into(), AttrKind::U16(0)), ("t".into(), AttrKind::Quoted(target.into()))] },
+                Link { target: format!("{}{}", target, target), attrs: vec![("p".into(), AttrKind::Plain(target.into()))] },
+            ];
+            for _ in 0..3 {
+                c18_doc(rep, &doc, &mut stats, 1);
+            }
+            rep.distinct(fnv(describe(&doc).as_bytes()));
+            rep.count("unrepresentable_target_documents");
+        }
         rep.distinct(fnv(describe(&doc).as_bytes()));
     }
     // numeric attributes: registry numbers and boundaries under the keys that usually carry them,
